@@ -41,7 +41,12 @@ def chain(rng, depth):
                     D.Hdr(b"rgb", D.Arr([D.S("u", b"1"), D.S("u", b"2"), D.S("u", b"3")])), D.Arr([])])
     for i in range(depth):
         k = D.S("u", b"k%d" % i)
-        if rng.random() < 0.3:
+        r = rng.random()
+        if r < 0.15:
+            # an array whose nested child is followed by more than one scalar (the writer must still know, after the
+            # child closes, that it is inside an array -- at any depth)
+            v = D.Arr([D.S("u", b"e"), v if v.__class__.__name__ != "S" else D.Arr([v]), D.S("u", b"x"), D.S("u", b"y")])
+        elif r < 0.4:
             v = D.Arr([D.S("u", b"e"), D.Obj([D.Field(k, "=", v)])] if rng.random() < 0.5 else [D.Obj([D.Field(k, "=", v)]), D.S("q", b"e")])
         else:
             items = [D.Field(k, rng.choice(["=", "=", "<", "=="]), v)]
@@ -166,6 +171,10 @@ def run(ctx, widen=False):
         docs.append((d, i % 10 != 9))
     for i in range(ctx.scale(400, 2000)):
         docs.append((chain(rng, rng.randrange(6, 15)), True))
+    # very deep nesting (beyond any fixed-width depth bookkeeping: 31/32/33, 63..70, 127..130 containers)
+    for dp in [30, 31, 32, 33, 62, 63, 64, 65, 66, 67, 68, 70, 127, 128, 129, 130][:ctx.scale(16, 16)]:
+        for _ in range(ctx.scale(2, 6)):
+            docs.append((chain(rng, dp), True))
     ctx.count("documents", len(docs))
 
     # ---- phase 1: the real parser on renderings (also ties docgen.flatten to the parser)
